@@ -108,7 +108,18 @@ def info_of(d):
         info["Y"] = dict(d["Y"])
     if d["X"] is not None:
         info["X"] = dict(d["X"])
+    for blk, key in d.get("by_call") or []:      # handed over as a call keyword instead (the block itself stays in the description)
+        info[blk].pop(key, None)
     return info
+
+
+_CALL_KW = {("Y", "Scale"): "yscale", ("Y", "Offset"): "yoffset", ("X", "Offset"): "xoffset"}
+
+
+def call_kw_of(d):
+    """manipulations the caller gives as keywords of add_dataset rather than in the dataset description (the description wins where it
+    has the entry; the keyword fills in what it leaves out)"""
+    return {_CALL_KW[(blk, key)]: d[blk][key] for blk, key in d.get("by_call") or []}
 
 
 def snap(stog):
@@ -121,7 +132,11 @@ def snap(stog):
 def run_sequence(pystog, cfg, datasets):
     """add the datasets one by one; return the snapshots before/after each"""
     first = cfg.get("Merging_first")
-    stog = pystog.StoG(**stog_kwargs(dict(cfg, Merging=first) if first is not None else cfg))
+    ctor = cfg.get("win_ctor")
+    cfg_c = cfg if ctor is None else dict(cfg, Qmin=ctor.get("Qmin"), Qmax=ctor.get("Qmax"))
+    stog = pystog.StoG(**stog_kwargs(dict(cfg_c, Merging=first) if first is not None else cfg_c))
+    if ctor is not None:         # the global window is changed through the attributes after construction: the attributes are what counts
+        stog.qmin, stog.qmax = cfg.get("Qmin"), cfg.get("Qmax")
     if first is not None:        # the options are assigned again: only the last assignment counts
         stog.merged_opts = dict(cfg.get("Merging") or {})
     snaps = [snap(stog)]
@@ -154,7 +169,7 @@ def run_sequence(pystog, cfg, datasets):
         else:
             info = info_of(d)
         infos.append(info)
-        stog.add_dataset(info)
+        stog.add_dataset(info, **call_kw_of(d))
         sn = snap(stog)
         sn["mat"] = dict(cur)
         if rej is not None:
